@@ -36,10 +36,66 @@ func c10MaxDigits() int {
 	if h.Thorough() {
 		return 5700
 	}
-	return 1500
+	return 2400
+}
+
+// genC10Roomy: operands large enough for Karatsuba / recursive division, every role on one
+// variable (or receiver = first operand), and a receiver whose buffer is many times larger than its
+// value (as after an earlier, longer product): buffer-reuse decisions then differ from a fresh receiver's.
+func genC10Roomy(t *rapid.T) C10Case {
+	c := C10Case{M: h.GenMode(t, "zmode")}
+	c.Op = rapid.SampledFrom([]string{"mul", "mul", "quo", "sqrt", "add", "fma"}).Draw(t, "op")
+	n := rapid.IntRange(932, c10MaxDigits()).Draw(t, "n")
+	mk := func(label string, n int) h.Spec {
+		d := h.GenDigitsN(t, label, n)
+		return h.Spec{F: "f", D: d, E: int64(rapid.IntRange(-50, 50).Draw(t, label+"e")), Neg: c.Op != "sqrt" && rapid.Bool().Draw(t, label+"neg"),
+			Hist: rapid.SampledFrom([]string{"hugecap", "hugecap", "cap", ""}).Draw(t, label+"h")}
+	}
+	ar := c10Arith[c.Op]
+	c.Role = make([]int, ar+1)
+	c.Blocks = []h.Spec{mk("b0", n)}
+	switch rapid.IntRange(0, 2).Draw(t, "shape") {
+	case 0: // all roles on one variable
+	case 1: // receiver = first operand, the others on a second variable
+		c.Blocks = append(c.Blocks, mk("b1", rapid.IntRange(20, c10MaxDigits()).Draw(t, "n1")))
+		for i := 2; i <= ar; i++ {
+			c.Role[i] = 1
+		}
+	default: // receiver = last operand
+		c.Blocks = append(c.Blocks, mk("b1", rapid.IntRange(20, c10MaxDigits()).Draw(t, "n1")))
+		for i := 1; i < ar; i++ {
+			c.Role[i] = 1
+		}
+		if ar == 1 {
+			c.Role[1] = 0
+		}
+	}
+	for i := range c.Blocks {
+		if c.Op == "add" || c.Op == "fma" {
+			c.Blocks[i].E = int64(len(c.Blocks[i].D)) // keep the exponent gap of sums small
+		}
+	}
+	c.P = uint(len(c.Blocks[0].D)) + uint(rapid.IntRange(0, 40).Draw(t, "p"))
+	if c.Op == "quo" || c.Op == "sqrt" {
+		if lim := uint(quoPrecLimit()); c.P > lim {
+			// keep the shared operand representable at the bounded precision
+			if uint(len(c.Blocks[0].D)) >= lim {
+				c.Blocks[0].D = c.Blocks[0].D[:lim-1] + "7"
+			}
+			c.P = lim
+		}
+	}
+	c.Blocks[0].P, c.Blocks[0].M = c.P, c.M
+	for i := 1; i < len(c.Blocks); i++ {
+		c.Blocks[i].P, c.Blocks[i].M = uint(len(c.Blocks[i].D)), h.GenMode(t, "bm")
+	}
+	return c
 }
 
 func genC10(t *rapid.T) C10Case {
+	if rapid.IntRange(0, 19).Draw(t, "roomy") == 0 {
+		return genC10Roomy(t)
+	}
 	c := C10Case{M: h.GenMode(t, "zmode")}
 	kind := rapid.IntRange(0, 9).Draw(t, "kind")
 	switch {
